@@ -50,13 +50,3 @@ Lemma len_eq_number_of_batches : forall bk sz drop s out,
   bucket_iter bk sz drop s = Some out -> sampler_len bk sz drop s = length out.
 Proof. intros bk sz drop s out H. apply spec_len_eq_number_of_batches. now apply bucket_iter_spec. Qed.
 
-(* F8 witnesses: in-range parameters for which the loader constructor raises *)
-Lemma loader_f8_empty_refuted :
-  exists p, 1 <= p_bs p /\ 1 <= p_nb p /\ loader_init [] p = Err IndexError.
-Proof. exists (mkLP 1 2 false false). repeat split; try (cbn; lia). Qed.
-
-Lemma loader_f8_zero_refuted :
-  exists lens p, lens <> [] /\ 1 <= p_bs p /\ 1 <= p_nb p /\ loader_init lens p = Err ZeroDivisionError.
-Proof.
-  exists [0; 3], (mkLP 1 2 true false). split; [discriminate|]. repeat split; try (cbn; lia).
-Qed.
